@@ -159,7 +159,9 @@ def run_config(w, c, idx, psize=None):
         if cmd == "key_generate":
             stdin = data
         elif c["inp"] == "file":
-            if cause != "missing_input":
+            if cause == "input_read_error":
+                os.mkdir(in_path)
+            elif cause != "missing_input":
                 if cause == "same_in_out":
                     in_path = out_path
                     prior = data
@@ -203,22 +205,30 @@ def run_config(w, c, idx, psize=None):
             if cause == "malformed_keyring":
                 krtext = "[Key]\nName = x\nthis is not a keyring\n"
             kr_path = sb.path("keyring.txt")
-            if cause != "missing_keyring":
+            if cause == "non_utf8_keyring":
+                # the valid keyring with one byte that makes it ill-formed UTF-8 (inside a comment line)
+                sb.write("keyring.txt", b"# caf\xe9\n" + krtext.encode())
+            elif cause != "missing_keyring":
                 sb.write("keyring.txt", krtext)
             if c["kr"] == "opt":
                 args += ["--keyring" if lng else "-k", kr_path]
             else:
                 env["KESTREL_KEYRING"] = kr_path
-        args.append("--env-pass")
+        if cause != "no_terminal":
+            args.append("--env-pass")
         pw = {"encrypt": "alice-pw", "decrypt": "bob-pw", "pass_encrypt": "file-pw", "pass_decrypt": "file-pw",
               "key_generate": "gen-pw"}[cmd]
         if cause == "wrong_password":
             pw = "not-the-password"
-        if cause != "unset_password":
+        raw_env = None
+        if cause == "non_utf8_password":
+            raw_env = {b"KESTREL_PASSWORD": b"p\xff\xfew"}
+        elif cause != "unset_password":
             env["KESTREL_PASSWORD"] = pw
-        r = cli.kestrel(args, env=env, stdin=stdin, timeout=120, stdout_path="/dev/full" if cause == "stdout_full" else None)
+        r = cli.kestrel(args, env=env, stdin=stdin, timeout=120, stdout_path="/dev/full" if cause == "stdout_full" else None,
+                        raw_env=raw_env, setsid=(cause == "no_terminal"))
         # ---- classify the output ----
-        if cause in ("output_device_full", "stdout_full"):
+        if cause in ("output_device_full", "stdout_full", "input_read_error"):
             got = b"n/a"
         elif cause == "output_dir_missing":
             got = None if not os.path.exists(out_path) else b"created"
@@ -826,7 +836,9 @@ import ptyrun
 TTY_WORDS = {"good": "the-right-pw", "x": "wrong x", "y": "wröng-y"}
 
 
-def run_tty_scenario(w, idx, sc):
+def run_tty_scenario(w, idx, sc, channel="tty"):
+    """channel "tty": the terminal is the controlling terminal (prompt_password_tty); "stdin": a terminal on stdin only,
+    no controlling terminal (the prompt_password_stdin fall-back of ask_pass)."""
     cmd, script, exp = sc["cmd"], sc["script"], sc["exp"]
     lines = [TTY_WORDS[x] for x in script]
     keys = cli.make_keys(w.pid, w.tpl, w.seed, [("ttyalice", TTY_WORDS["good"].encode()), ("ttybob", TTY_WORDS["good"].encode())])
@@ -850,7 +862,8 @@ def run_tty_scenario(w, idx, sc):
         else:
             args = ["key", "change-pass", keys["ttyalice"]["locked"]]
         # lines typed; then Ctrl-C if the contract says the script ends in an interrupt
-        rc, transcript, answered = ptyrun.run_tty(args, lines, timeout=90, interrupt=(exp["res"] == "interrupted"))
+        rc, transcript, answered = ptyrun.run_tty(args, lines, timeout=90, interrupt=(exp["res"] == "interrupted"),
+                                                  controlling=(channel == "tty"))
         got = sb.read("out.bin")
         pw_ok = True
         if got == prior:
@@ -882,7 +895,7 @@ def run_tty_scenario(w, idx, sc):
                     pw_ok = bool(u.get("ok")) and u.get("sk_hex") == keys["ttyalice"]["sk_hex"]
                     out = "full" if pw_ok else "other"
         text = transcript.decode("utf-8", "replace")
-        return {"ev": "tty", "id": "tty%d" % idx, "cmd": cmd, "script": script, "exp": exp, "rc": rc, "answered": answered,
+        return {"ev": "tty", "id": "tty%d%s" % (idx, "" if channel == "tty" else "s"), "channel": channel, "cmd": cmd, "script": script, "exp": exp, "rc": rc, "answered": answered,
                 "timed_out": rc == -999, "out": out, "pw_ok": pw_ok, "errline": "Error:" in text,
                 "transcript_tail": text[-200:]}
 
@@ -909,10 +922,13 @@ def tty_extension(rep, pid, tpl, seed, thorough, prefixes, only_failures=False):
     if not thorough:
         scs = [s for i, s in enumerate(scs) if len(s["script"]) <= 2 or i % 6 == 0]
     w = World(pid, tpl, seed)
+    # every script on the controlling terminal; those that do not end in Ctrl-C (without a controlling terminal there
+    # is no interrupt character) also with a terminal on stdin only: the prompt_password_stdin fall-back
+    jobs = [(i, s, "tty") for i, s in enumerate(scs)] + [(i, s, "stdin") for i, s in enumerate(scs) if s["exp"]["res"] != "interrupted"]
     with cf.ThreadPoolExecutor(max_workers=8) as ex:
-        evs = list(ex.map(lambda isc: run_tty_scenario(w, isc[0], isc[1]), list(enumerate(scs))))
-    for s in scs:
-        rep.case("tty:" + json.dumps(s, sort_keys=True), len(s["script"]) >= 1)
+        evs = list(ex.map(lambda j: run_tty_scenario(w, j[0], j[1], j[2]), jobs))
+    for (i, s, ch) in jobs:
+        rep.case("tty:" + ch + json.dumps(s, sort_keys=True), len(s["script"]) >= 1)
     rep.sample(evs[len(evs) // 2])
     validate_events(rep, pid, "tty", evs, prefixes)
     rep.extra["tty_scenarios"] = len(evs)
